@@ -688,6 +688,9 @@ class TorchBackendProvider(BackendProvider):
             return a.pow(b)
         # For numpy arrays or scalars
         a_val = float(a) if isinstance(a, (int, numpy.integer)) else a
+        if isinstance(a_val, numpy.ndarray) and a_val.dtype.kind in 'iub':
+            # as for an integer atom: numpy refuses integer arrays to negative integer powers
+            a_val = a_val.astype(float)
         b_val = b.item() if isinstance(b, torch.Tensor) and b.ndim == 0 else (b.cpu().numpy() if isinstance(b, torch.Tensor) else b)
         return numpy.power(a_val, b_val)
 
